@@ -215,3 +215,19 @@ pub fn mismatch_key(dev: &Value, observed_is_asis: bool) -> String {
         "unexplained".to_string()
     }
 }
+
+/// Is `obs` explained by the ideal and the as-is prediction together: every leaf (recursively through
+/// arrays of equal length and objects of equal keys) equals the ideal's or the as-is model's?  A reader
+/// in which some of the listed deviations are repaired yields such a mix; a third reading never does.
+pub fn explained_mix(obs: &Value, ideal: &Value, asis: &Value) -> bool {
+    if obs == ideal || obs == asis {
+        return true;
+    }
+    match (obs, ideal, asis) {
+        (Value::Array(o), Value::Array(i), Value::Array(a)) if o.len() == i.len() && o.len() == a.len() =>
+            o.iter().zip(i.iter().zip(a.iter())).all(|(x, (y, z))| explained_mix(x, y, z)),
+        (Value::Object(o), Value::Object(i), Value::Object(a)) if o.len() == i.len() && o.len() == a.len() =>
+            o.iter().all(|(k, x)| match (i.get(k), a.get(k)) { (Some(y), Some(z)) => explained_mix(x, y, z), _ => false }),
+        _ => false,
+    }
+}
